@@ -308,10 +308,10 @@ func runC11History(rc *RunCtx) {
 			}},
 			{"ShutdownProvider", 2, strangerIsProvider, func() sdk.Msg { return &storagetypes.MsgShutdownProvider{Creator: sb} }},
 			{"CreateFeed", 2, sFeed, func() sdk.Msg {
-				return &oracletypes.MsgCreateFeed{Creator: sb, Name: pickS(ownerFeed, ownerFeed, fmt.Sprintf("new%d", rc.Intn(5)), ob)}
+				return &oracletypes.MsgCreateFeed{Creator: sb, Name: pickS(ownerFeed, ownerFeed, strings.ToUpper(ownerFeed), " "+ownerFeed, ownerFeed+" ", strings.Title(ownerFeed), fmt.Sprintf("new%d", rc.Intn(5)), ob)}
 			}},
 			{"UpdateFeed", 4, sFeed, func() sdk.Msg {
-				return &oracletypes.MsgUpdateFeed{Creator: sb, Name: pickS(ownerFeed, ownerFeed, ownerFeed, strangerFeed, "new0"), Data: pickS(`{"price":"0"}`, ob, "")}
+				return &oracletypes.MsgUpdateFeed{Creator: sb, Name: pickS(ownerFeed, ownerFeed, ownerFeed, strings.ToUpper(ownerFeed), ownerFeed+" ", strangerFeed, "new0"), Data: pickS(`{"price":"0"}`, ob, "")}
 			}},
 			{"DeleteNotification", 6, sInbox, func() sdk.Msg {
 				return &notiftypes.MsgDeleteNotification{Creator: sb, From: pickS(ob, ob, ob, tb, tb, sb, fb), Time: times[rc.Intn(len(times))]}
